@@ -80,11 +80,18 @@ LETTERS = 'ABCDEFGHIJKLMNOPQRSTUVWXYZ'
 DIGITS = '0123456789'
 PUNCT_OK = "!#$%&'()-@^_`{}~"
 ALLOWED = set(LETTERS + DIGITS + PUNCT_OK)       # blanks deliberately excluded from 'strictly legal'
-FORBIDDEN = '+,;=[]|<>*?' + ''.join(chr(c) for c in (1, 7, 9, 27, 31))
+FORBIDDEN = '+,;=[]|<>*?' + ''.join(chr(c) for c in (1, 7, 27, 31))
+
+
+DOS_DEVICES = ('AUX', 'CON', 'NUL', 'PRN', 'COM1', 'COM2', 'COM3', 'COM4', 'LPT1', 'LPT2', 'LPT3', 'CLOCK$')
 
 
 def strictly_legal(name):
     """(TRUNK, EXT) in upper case if `name` (latin-1 str) is a strictly legal 8.3 name, else None."""
+    if not name.isascii():
+        return None
+    if aupper(name).partition('.')[0] in DOS_DEVICES:
+        return None
     if name.endswith('.') and name.count('.') == 1:
         name = name[:-1]
     if name.count('.') > 1:
@@ -94,7 +101,7 @@ def strictly_legal(name):
         return None
     if '.' in name and not ext:
         return None
-    up = name.upper()
+    up = aupper(name)
     if not set(up.replace('.', '')) <= ALLOWED:
         return None
     t, _, e = up.partition('.')
@@ -103,24 +110,37 @@ def strictly_legal(name):
 
 def clearly_illegal(name):
     """8.3-shaped, but with a character DOS forbids in file names."""
-    if not name or name.count('.') > 1 or name[0] == '.':
+    if not name or name.count('.') > 1 or name[0] == '.' or aupper(name).partition('.')[0] in DOS_DEVICES:
         return False
     trunk, _, ext = name.partition('.')
     if not (1 <= len(trunk) <= 8 and len(ext) <= 3):
         return False
-    chars = set(name.upper().replace('.', ''))
+    chars = set(aupper(name).replace('.', ''))
     if not chars & set(FORBIDDEN):
         return False
     return chars <= (ALLOWED | set(FORBIDDEN))
 
 
+def aupper(s):
+    """Upper-case the ASCII letters only (BASIC text is latin-1 bytes in a str)."""
+    return ''.join(c.upper() if 'a' <= c <= 'z' else c for c in s)
+
+
+def alower(s):
+    return ''.join(c.lower() if 'A' <= c <= 'Z' else c for c in s)
+
+
+def aswap(s):
+    return ''.join(c.lower() if 'A' <= c <= 'Z' else c.upper() if 'a' <= c <= 'z' else c for c in s)
+
+
 def recase(rng, s):
     mode = rng.randint(0, 3)
     if mode == 0:
-        return s.upper()
+        return aupper(s)
     if mode == 1:
-        return s.lower()
-    return ''.join(c.upper() if rng.random() < 0.5 else c.lower() for c in s)
+        return alower(s)
+    return ''.join(aupper(c) if rng.random() < 0.5 else alower(c) for c in s)
 
 
 def rand_legal(rng):
@@ -164,7 +184,8 @@ LEAF27 = ['SENTINEL.TXT', 'SENTINEL.BAS', 'sentinel.txt', 'SENTINEL', 'SENTINEL.
           'S.BAS', 'SECRET.TXT', 'PFX.TXT', 'TOP.TXT', 'CWDSENT.TXT', 'A.TXT', 'a.txt', 'B.BAS', 'B', 'NEW1.TXT',
           'NEW2', 'X', '..', '.', '', '...', 'LongFileName.txt', 'caf\xe9.txt', 'mountC', 'mountD', 'secret', 'outer',
           'SUB', 'DEEP', 'NEWDIR', 'D.DAT', '.. ', '..\\', 'NUL', 'PRN']
-DRIVES27 = ['', '', '', '', 'C:', 'C:', 'D:', 'c:', 'd:', '@:', 'A:', 'Z:', 'C:D:', 'D:C:', 'C:\\D:', '1:', 'CD:']
+DRIVES27 = (['', 'C:', '', 'D:'] * 6 + ['c:', 'd:', '@:', 'A:', 'Z:', 'C:D:', 'D:C:', 'C:\\D:'] * 2 +
+            ['1:', 'CD:', ':', 'AB:', '@A:'])
 LEADS27 = ['', '', '', '', '\\', '\\', '\\\\', '\\\\?\\', '\\\\.\\', '\\\\A\\', '\\\\SUB\\', '\\\\SUB\\DEEP\\', '/',
            '\\\\?\\UNC\\', PH_B + '\\', PH_N + '/', PH_B + '\\mountC\\..\\', '..\\' * 12]
 STMT27 = ['open_o', 'open_a', 'open_i', 'open_i', 'open_r', 'open_old', 'load', 'run', 'merge', 'chain', 'save',
@@ -374,6 +395,7 @@ class Env(object):
         self.n_monitored = 0
         self.crashes = 0
         self.cwd_escaped = False
+        self.causes = set()
 
     # -- set-up ----------------------------------------------------------
 
@@ -588,6 +610,7 @@ class Env(object):
                     continue
                 seen.add(key)
                 run.probe('outside-call')
+                self.causes.add(shape)
                 run.violate('C27', 'outside-mount:%s:%s:%s' % (kc, z, shape),
                             '%s made a host call outside every mount: %s(%s) [seen by %s]; statement: %r' % (
                                 what.split(' ')[0], kind, self.rel(rp), src, what))
@@ -597,10 +620,14 @@ class Env(object):
             return '<scratch>' + rp[len(self.scratch):]
         return rp
 
+    def cause(self):
+        """Path shapes of the outside calls seen so far in this run ('unmonitored' if none was seen)."""
+        return '+'.join(sorted(self.causes)) or 'unmonitored'
+
     def check_output(self, what, out):
         for m in MARKERS:
             if m in out:
-                self.run.violate('C27', 'sentinel-disclosed:output', 'marker %r of a file outside the mounts in the output '
+                self.run.violate('C27', 'sentinel-disclosed:output:' + self.cause(), 'marker %r of a file outside the mounts in the output '
                                  'of %r: %r' % (m, what, self.mask(out)[:300]))
 
     def final_checks(self):
@@ -611,7 +638,7 @@ class Env(object):
             kinds = set()
             for k in changed:
                 kinds.add('created' if k not in self.sent0 else 'deleted' if k not in now else 'modified')
-            run.violate('C27', 'sentinel-changed:%s' % '+'.join(sorted(kinds)),
+            run.violate('C27', 'sentinel-changed:%s:%s' % ('+'.join(sorted(kinds)), self.cause()),
                         'outside the mounts, changed: %r' % ([(k, self.sent0.get(k, ('absent',))[0], now.get(k, ('absent',))[0])
                                                               for k in changed[:8]],))
         for root in self.roots:
@@ -625,7 +652,7 @@ class Env(object):
                         continue
                     for m in MARKERS:
                         if m in data:
-                            run.violate('C27', 'sentinel-disclosed:copied-into-mount',
+                            run.violate('C27', 'sentinel-disclosed:copied-into-mount:' + self.cause(),
                                         'marker %r found in %s' % (m, self.rel(os.path.join(dirpath, fn))))
 
 
@@ -713,6 +740,9 @@ def do_statement(env, op):
     kind = op['k']
     p, q = op.get('p'), op.get('q')
     exprs = []
+    if kind in ('save', 'save_a', 'save_p'):
+        env.X(b'NEW')
+        env.X(b'10 PRINT %d' % op['uid'])
     for var, s in ((b'P$', p), (b'Q$', q)):
         if s is None:
             exprs.append(None)
@@ -724,9 +754,6 @@ def do_statement(env, op):
             run.probe('path-via-variable')
         else:
             exprs.append(lit)
-    if kind in ('save', 'save_a', 'save_p'):
-        env.X(b'NEW')
-        env.X(b'10 PRINT %d' % op['uid'])
     line = _stmt(kind, exprs[0], exprs[1], op['uid'])
     what = u(line)
     if exprs[0] == b'P$':
@@ -794,7 +821,7 @@ _NUM = re.compile(br'(?<!\d)([1-3]\d{6})(?!\d)')
 
 def canon(name):
     """Upper-case form of an ASCII host or DOS name; a single trailing dot is the dotless name."""
-    up = name.upper()
+    up = aupper(name)
     if up.endswith('.') and up.count('.') == 1:
         up = up[:-1]
     return up
@@ -819,11 +846,11 @@ def parse_files(out):
             break
         i = 0
         while i < len(ln):
-            cell = ln[i:i + 18]
-            if len(cell) < 18:
+            cell = ln[i:i + 17]
+            if len(cell) < 17 or cell[12:17] not in (b'<DIR>', b'     ') or ln[i + 17:i + 18] not in (b'', b' '):
                 return None
             entries.append((u(cell[:8]).rstrip(' '), u(cell[9:12]).rstrip(' '), cell[12:17] == b'<DIR>'))
-            i += 19
+            i += 18
     return lines[0], entries
 
 
@@ -903,11 +930,11 @@ class Judge28(object):
         # capitalisation consistency for any accepted name (property clause a), text creators only
         if (kind in ('open_o', 'open_old', 'save_a') and r.err is None and len(created) == 1 and not changed
                 and not removed and ncls in ('weak', 'legal') and N and after[created[0]][0] == 'f'):
-            variant = N.swapcase() if N.isascii() else ''.join(c.swapcase() if c.isascii() else c for c in N)
+            variant = aswap(N)
             if variant != N:
-                r2, what2, _ = do_statement(env, {'k': 'open_i', 'p': variant, 'uid': op['uid']})
+                r2, what2, x2 = do_statement(env, {'k': 'load' if kind == 'save_a' else 'open_i', 'p': variant, 'uid': op['uid']})
                 want = uids_in(after[created[0]][1])
-                got = uids_in(env.mask(r2.out))
+                got = uids_in(env.mask(r2.out) + (env.mask(x2.out) if x2 is not None else b''))
                 run.probe('recase-readback')
                 if r2.err is not None or not (want & got):
                     self.violate('created-file-not-opened-by-other-capitalisation:%s' % ncls,
@@ -1049,7 +1076,7 @@ class Judge28(object):
             elif r.err is not None or parsed is None:
                 self.violate('files-existing-name-not-listed:%s' % ('unparsable' if r.err is None else 'err%d' % r.err), ctx)
             else:
-                names = [t + ('.' + x if x else '') for t, x, _ in parsed[1]]
+                names = [(t + ('.' + x if x else '')) or '.' for t, x, _ in parsed[1]]
                 if not names or any(canon(n) != E for n in names) or len(names) > len(S) + len(Dd):
                     self.violate('files-mask-lists-wrong-names', 'listed %r, host has %r: %s' % (names, S + Dd, ctx))
             return len(S)
@@ -1065,7 +1092,7 @@ class Judge28(object):
             self.violate('files-output-unparsable', '%r' % (self.env.mask(r.out)[:400],))
             return
         entries = parsed[1]
-        listed = [(t + ('.' + x if x else ''), isd) for t, x, isd in entries]
+        listed = [((t + ('.' + x if x else '')) or '.', isd) for t, x, isd in entries]
         visible = [n for n in before if not n.startswith('.')]
         n_listed = len([1 for nm, isd in listed if nm not in ('.', '..')])
         if not (len(visible) <= n_listed <= len(before)):
